@@ -415,7 +415,17 @@ func (h kvHandler) handleKvScanLock(req *kvrpcpb.ScanLockRequest) *kvrpcpb.ScanL
 func (h kvHandler) handleKvResolveLock(req *kvrpcpb.ResolveLockRequest) *kvrpcpb.ResolveLockResponse {
 	startKey := MvccKey(h.startKey).Raw()
 	endKey := MvccKey(h.endKey).Raw()
-	err := h.mvccStore.ResolveLock(startKey, endKey, req.GetStartVersion(), req.GetCommitVersion())
+	var err error
+	if len(req.GetTxnInfos()) > 0 {
+		// Batch resolve (used by GC): the outcomes of several transactions in one request.
+		txnInfos := make(map[uint64]uint64, len(req.GetTxnInfos()))
+		for _, info := range req.GetTxnInfos() {
+			txnInfos[info.GetTxn()] = info.GetStatus()
+		}
+		err = h.mvccStore.BatchResolveLock(startKey, endKey, txnInfos)
+	} else {
+		err = h.mvccStore.ResolveLock(startKey, endKey, req.GetStartVersion(), req.GetCommitVersion())
+	}
 	if err != nil {
 		return &kvrpcpb.ResolveLockResponse{
 			Error: convertToKeyError(err),
